@@ -90,7 +90,7 @@ def linkFindings (ctrlRoute : String) (m : Method) : List (String × String) :=
   -- the controller's prefix first (`WithControllerRoute`, fix for the prefix half of C10-F2)
   let urlParams := extractUrlParams ctrlRoute ++ extractUrlParams route
   let pathAttrs := (m.annots.filter (·.name = "Path")).zipIdx
-  let funcParams := m.params.map (·.name)
+  let funcParams := (m.params.filter fun p => !isContextType p.type).map (·.name)
   -- 1. route
   let badAlias := pathAttrs.filter fun (a, _) => aliasOf a = .bad
   let d1 : List (String × String) :=
